@@ -143,6 +143,8 @@ def ill_cases(rng):
     out.append({"cls": "zero-base-return", "fi": True, "how": "adjust-nonflow"})
     for depth in (1, 2):
         out.append({"cls": "fi-child-under-market-value-parent", "depth": depth})
+    # ... also when the fixed-income strategy is booked while the run is going on (`parent=` + `setup_from_parent()`)
+    out.append({"cls": "fi-child-under-market-value-parent", "depth": 1, "dynamic": True})
     # the custom price: above / below the market, exactly zero (as float, int, numpy scalar), negative; via the security and via ReplayTransactions
     for px in (101.0, 99.5, 0.0, 0, "np0", -1.0):
         out.append({"cls": "custom-price-without-bidoffer", "q": float(rng.choice([-1, 1]) * rng.randint(1, 9)), "px": px, "via": "security"})
@@ -238,11 +240,26 @@ def run_ill(ctx, bt, c):
             _ = s.price
         elif cls == "fi-child-under-market-value-parent":
             data = pd.DataFrame({"x": [100.0] * T}, index=dates)
-            kid = bt.FixedIncomeStrategy("f", children=[core.Security("x")])
-            if c["depth"] == 2:
-                kid = bt.Strategy("mid", children=[kid])
-            s = bt.Strategy("s", children=[kid])
-            s.setup(data)
+            if c.get("dynamic"):
+                class _LateFI(bt.Strategy):        # what FixedIncomeStrategy is, with the `parent=` keyword of Strategy
+                    def __init__(self, name, algos=None, children=None, parent=None):
+                        super(_LateFI, self).__init__(name, algos=algos, children=children, parent=parent)
+                        self._fixed_income = True
+                s = bt.Strategy("s", children=["x"])
+                s.setup(data)
+                s.adjust(10000.0)
+                s.update(dates[0])
+                s.update(dates[1])
+                late = _LateFI("f", children=[core.Security("x")], parent=s)
+                late.setup_from_parent()
+                s.rebalance(0.5, "f")
+                s.update(dates[1])
+            else:
+                kid = bt.FixedIncomeStrategy("f", children=[core.Security("x")])
+                if c["depth"] == 2:
+                    kid = bt.Strategy("mid", children=[kid])
+                s = bt.Strategy("s", children=[kid])
+                s.setup(data)
         elif cls == "custom-price-without-bidoffer":
             data = pd.DataFrame({"x": [100.0] * T}, index=dates)
             s = core.Strategy("s", children=[core.Security("x")])
